@@ -466,4 +466,1489 @@ theorem rt_untar_listing (M : List (RelPath × Node)) (hM : RtListing M) :
     · intro hmem
       exact hnm ((rt_defer_sublist M).subset (by rw [← hinv.deferred]; exact hmem))
 
+/-! ## the source tree -/
+
+def rtIsDir : Option Node → Bool
+  | some (.dir _ _) => true
+  | _ => false
+
+theorem rt_isDir_iff (x : Option Node) : rtIsDir x = true ↔ ∃ perm mt, x = some (.dir perm mt) := by
+  unfold rtIsDir
+  split
+  · rename_i perm mt; exact ⟨fun _ => ⟨perm, mt, rfl⟩, fun _ => rfl⟩
+  · rename_i h
+    constructor
+    · intro h'; cases h'
+    · rintro ⟨perm, mt, e⟩; exact absurd e (h perm mt)
+
+/-- the node bound at `root ++ r`, provided `r` is not empty and every directory on the way from
+`root` down to it is a real directory (what `filepath.Walk`, which does not follow links, reaches) -/
+def rtRaw (fs : FS) (root : PPath) (r : RelPath) : Option Node :=
+  if r ≠ [] ∧ (properPrefixes r).all (fun q => rtIsDir (fs.get (root ++ q))) = true then fs.get (root ++ r)
+  else none
+
+/-- **the abstract tree of a source directory**: below the physical directory `root`, the node at
+the relative path `r` as the archive records it — permission bits only, time rounded to the
+second, link targets as they are, special files absent -/
+def srcNode (fs : FS) (root : PPath) (r : RelPath) : Option Node := (rtRaw fs root r).bind rtConv
+
+theorem rt_raw_some {fs : FS} {P : PPath} {r : RelPath} {nd : Node} :
+    rtRaw fs P r = some nd ↔
+      r ≠ [] ∧ (∀ q ∈ properPrefixes r, ∃ perm mt, fs.get (P ++ q) = some (.dir perm mt)) ∧
+      fs.get (P ++ r) = some nd := by
+  unfold rtRaw
+  constructor
+  · intro h
+    split at h
+    · rename_i hc
+      refine ⟨hc.1, ?_, h⟩
+      intro q hq
+      exact (rt_isDir_iff _).mp (List.all_eq_true.mp hc.2 q hq)
+    · cases h
+  · rintro ⟨h1, h2, h3⟩
+    rw [if_pos ⟨h1, List.all_eq_true.mpr (fun q hq => (rt_isDir_iff _).mpr (h2 q hq))⟩, h3]
+
+/-- "`rel` is the source root or a real directory reachable from it" -/
+def RtDirAt (fs : FS) (P : PPath) (rel : RelPath) : Prop :=
+  rel = [] ∨ ∃ perm mt, rtRaw fs P rel = some (.dir perm mt)
+
+theorem rt_prefix_snoc {q rel : RelPath} {n : Str} (h : q <+: rel ++ [n]) (hl : q.length < (rel ++ [n]).length) :
+    q <+: rel := by
+  rcases List.prefix_concat_iff.mp h with e | h
+  · rw [e] at hl; exact absurd hl (Nat.lt_irrefl _)
+  · exact h
+
+theorem rt_raw_child {fs : FS} {P : PPath} {rel : RelPath} (n : Str) (hd : RtDirAt fs P rel) :
+    rtRaw fs P (rel ++ [n]) = fs.get (P ++ (rel ++ [n])) := by
+  unfold rtRaw
+  rw [if_pos]
+  refine ⟨by simp, List.all_eq_true.mpr ?_⟩
+  intro q hq
+  rw [rt_isDir_iff]
+  obtain ⟨h1, h2, h3⟩ := rt_properPrefixes_spec hq
+  have hpre := rt_prefix_snoc h2 h3
+  rcases hd with e | ⟨perm, mt, hr⟩
+  · subst e
+    exact absurd (List.prefix_nil.mp hpre) h1
+  · obtain ⟨_, hall, hget⟩ := rt_raw_some.mp hr
+    by_cases hl : q.length < rel.length
+    · exact hall q (rt_properPrefixes_of h1 hpre hl)
+    · have : q = rel := hpre.eq_of_length (by have := hpre.length_le; omega)
+      rw [this]; exact ⟨perm, mt, hget⟩
+
+theorem rt_raw_prefix {fs : FS} {P : PPath} {r q : RelPath} {nd : Node} (h : rtRaw fs P r = some nd)
+    (hq : q ∈ properPrefixes r) : ∃ perm mt, rtRaw fs P q = some (.dir perm mt) := by
+  obtain ⟨_, hall, _⟩ := rt_raw_some.mp h
+  obtain ⟨h1, h2, h3⟩ := rt_properPrefixes_spec hq
+  obtain ⟨perm, mt, hg⟩ := hall q hq
+  refine ⟨perm, mt, rt_raw_some.mpr ⟨h1, ?_, hg⟩⟩
+  intro q' hq'
+  obtain ⟨g1, g2, g3⟩ := rt_properPrefixes_spec hq'
+  exact hall q' (rt_properPrefixes_of g1 (g2.trans h2) (by omega))
+
+theorem rt_get_mem {fs : FS} {p : PPath} {n : Node} (h : fs.get p = some n) : (p, n) ∈ fs := by
+  induction fs with
+  | nil => cases h
+  | cons x fs ih =>
+    obtain ⟨q, m⟩ := x
+    rw [FS.get] at h
+    split at h
+    · rename_i e; cases h; rw [e]; simp
+    · exact List.mem_cons_of_mem _ (ih h)
+
+theorem rt_mem_get {fs : FS} {p : PPath} {n : Node} (h : (p, n) ∈ fs) : ∃ m, fs.get p = some m := by
+  induction fs with
+  | nil => cases h
+  | cons x fs ih =>
+    obtain ⟨q, m⟩ := x
+    rw [FS.get]
+    split
+    · exact ⟨_, rfl⟩
+    · rename_i hne
+      rcases List.mem_cons.mp h with e | h
+      · cases e; exact absurd rfl hne
+      · exact ih h
+
+/-! ## `readdir` -/
+
+theorem rt_mem_dedup (l : List Str) : ∀ (init : List Str) (y : Str),
+    y ∈ l.foldl (fun acc n => if acc.contains n then acc else acc ++ [n]) init ↔ y ∈ init ∨ y ∈ l := by
+  induction l with
+  | nil => intro init y; simp
+  | cons a l ih =>
+    intro init y
+    rw [List.foldl_cons, ih]
+    by_cases hc : init.contains a = true
+    · simp only [hc, if_true, List.mem_cons]
+      have : a ∈ init := by simpa using hc
+      constructor
+      · rintro (h | h)
+        · exact Or.inl h
+        · exact Or.inr (Or.inr h)
+      · rintro (h | h | h)
+        · exact Or.inl h
+        · exact Or.inl (h ▸ this)
+        · exact Or.inr h
+    · rw [if_neg hc]
+      simp only [List.mem_append, List.mem_cons, List.not_mem_nil, or_false]
+      constructor
+      · rintro ((h | h) | h)
+        · exact Or.inl h
+        · exact Or.inr (Or.inl h)
+        · exact Or.inr (Or.inr h)
+      · rintro (h | h | h)
+        · exact Or.inl (Or.inl h)
+        · exact Or.inl (Or.inr h)
+        · exact Or.inr h
+
+theorem rt_nodup_dedup (l : List Str) : ∀ (init : List Str), init.Nodup →
+    (l.foldl (fun acc n => if acc.contains n then acc else acc ++ [n]) init).Nodup := by
+  induction l with
+  | nil => intro init h; exact h
+  | cons a l ih =>
+    intro init h
+    rw [List.foldl_cons]
+    apply ih
+    by_cases hc : init.contains a = true
+    · simp only [hc, if_true]; exact h
+    · rw [if_neg hc]
+      have hn : a ∉ init := by simpa using hc
+      rw [List.nodup_append]
+      refine ⟨h, by simp, ?_⟩
+      intro x hx y hy e
+      simp only [List.mem_singleton] at hy
+      exact hn (by rw [← hy, ← e]; exact hx)
+
+theorem rt_mem_insertSorted (x y : Str) (l : List Str) : y ∈ insertSorted x l ↔ y = x ∨ y ∈ l := by
+  induction l with
+  | nil => simp [insertSorted]
+  | cons a l ih =>
+    unfold insertSorted
+    split
+    · simp
+    · simp only [List.mem_cons, ih]
+      constructor
+      · rintro (h | h | h)
+        · exact Or.inr (Or.inl h)
+        · exact Or.inl h
+        · exact Or.inr (Or.inr h)
+      · rintro (h | h | h)
+        · exact Or.inr (Or.inl h)
+        · exact Or.inl h
+        · exact Or.inr (Or.inr h)
+
+theorem rt_nodup_insertSorted (x : Str) (l : List Str) (hx : x ∉ l) (h : l.Nodup) : (insertSorted x l).Nodup := by
+  induction l with
+  | nil => simp [insertSorted]
+  | cons a l ih =>
+    unfold insertSorted
+    split
+    · exact List.nodup_cons.mpr ⟨hx, h⟩
+    · rw [List.nodup_cons] at h ⊢
+      refine ⟨?_, ih (fun hm => hx (List.mem_cons_of_mem _ hm)) h.2⟩
+      rw [rt_mem_insertSorted]
+      rintro (e | hm)
+      · exact hx (by rw [e]; simp)
+      · exact h.1 hm
+
+theorem rt_sorted_spec (l : List Str) (h : l.Nodup) :
+    (l.foldr insertSorted []).Nodup ∧ ∀ y, y ∈ l.foldr insertSorted [] ↔ y ∈ l := by
+  induction l with
+  | nil => simp
+  | cons a l ih =>
+    rw [List.nodup_cons] at h
+    obtain ⟨ih1, ih2⟩ := ih h.2
+    rw [List.foldr_cons]
+    refine ⟨rt_nodup_insertSorted _ _ (fun hm => h.1 ((ih2 a).mp hm)) ih1, ?_⟩
+    intro y
+    rw [rt_mem_insertSorted, ih2]; simp
+
+/-- `readdir` lists exactly the names bound directly below `p`, each once -/
+theorem rt_readdir_spec (fs : FS) (p : PPath) :
+    (fs.readdir p).Nodup ∧ ∀ name, name ∈ fs.readdir p ↔ ∃ nd, fs.get (p ++ [name]) = some nd := by
+  unfold FS.readdir
+  simp only
+  have hnd := rt_nodup_dedup
+    (fs.filterMap fun e => if e.1.dropLast = p ∧ e.1 ≠ [] ∧ (fs.get e.1).isSome then e.1.getLast? else none)
+    [] List.nodup_nil
+  obtain ⟨h1, h2⟩ := rt_sorted_spec _ hnd
+  refine ⟨h1, ?_⟩
+  intro name
+  rw [h2, rt_mem_dedup]
+  simp only [List.not_mem_nil, false_or, List.mem_filterMap]
+  constructor
+  · rintro ⟨e, _, he⟩
+    split at he
+    · rename_i hc
+      obtain ⟨c1, _, c3⟩ := hc
+      obtain ⟨ys, hys⟩ := List.getLast?_eq_some_iff.mp he
+      rw [hys, List.dropLast_concat] at c1
+      rw [← c1, ← hys]
+      cases hg : fs.get e.1 with
+      | none => rw [hg] at c3; cases c3
+      | some nd => exact ⟨nd, rfl⟩
+    · cases he
+  · rintro ⟨nd, hg⟩
+    refine ⟨(p ++ [name], nd), rt_get_mem hg, ?_⟩
+    simp [hg]
+
+/-! ## path resolution through real directories -/
+
+theorem rt_lookup_snoc (fs : FS) (cur : PPath) (s : Seg) : fs.lookup (cur ++ [s]) = fs.get (cur ++ [s]) := by
+  unfold FS.lookup; simp
+
+theorem rt_resolve_phys (fs : FS) : ∀ (fuel : Nat) (cur : PPath) (segs : List Seg) (fl : Bool),
+    segs.length < fuel → (∀ s ∈ segs, s ≠ dotdot) →
+    (∀ q ∈ properPrefixes segs, ∃ perm mt, fs.get (cur ++ q) = some (.dir perm mt)) →
+    (fl = true → ∀ t, fs.get (cur ++ segs) ≠ some (.link t)) →
+    resolve fs fuel cur segs fl = .ok (cur ++ segs) := by
+  intro fuel
+  induction fuel with
+  | zero => intro cur segs fl h; exact absurd h (Nat.not_lt_zero _)
+  | succ fuel ih =>
+    intro cur segs fl hlen hdd hdirs hlast
+    cases segs with
+    | nil => simp [resolve]
+    | cons s rest =>
+      have hs : s ≠ dotdot := hdd s (by simp)
+      have hrec : ∀ perm mt, fs.get (cur ++ [s]) = some (.dir perm mt) →
+          resolve fs fuel (cur ++ [s]) rest fl = .ok (cur ++ s :: rest) := by
+        intro perm mt hg
+        have := ih (cur ++ [s]) rest fl (by simp at hlen; omega) (fun x hx => hdd x (List.mem_cons_of_mem _ hx))
+          (by
+            intro q hq
+            obtain ⟨g1, g2, g3⟩ := rt_properPrefixes_spec hq
+            have : s :: q ∈ properPrefixes (s :: rest) :=
+              rt_properPrefixes_of (by simp) (List.cons_prefix_cons.mpr ⟨rfl, g2⟩) (by simp; omega)
+            obtain ⟨pm, t, h⟩ := hdirs _ this
+            exact ⟨pm, t, by simpa using h⟩)
+          (by intro hfl t; have := hlast hfl t; simpa using this)
+        simpa using this
+      rw [resolve, if_neg hs]
+      simp only [rt_lookup_snoc]
+      by_cases hr : rest = []
+      · subst hr
+        cases hg : fs.get (cur ++ [s]) with
+        | none => simp
+        | some nd =>
+          cases nd with
+          | dir perm mt => simp only; exact hrec perm mt hg
+          | file perm mt c => simp
+          | special => simp
+          | link t =>
+            cases fl with
+            | false => simp
+            | true => exact absurd hg (hlast rfl t)
+      · have : [s] ∈ properPrefixes (s :: rest) := by
+          apply rt_properPrefixes_of (by simp) (List.cons_prefix_cons.mpr ⟨rfl, List.nil_prefix⟩)
+          cases rest with
+          | nil => exact absurd rfl hr
+          | cons a l => simp
+        obtain ⟨perm, mt, hg⟩ := hdirs _ this
+        rw [hg]
+        exact hrec perm mt hg
+
+/-! ## strings: walk paths, `Rel`, `Replace` -/
+
+theorem rt_indexOf_spec (p : Str) : ∀ (s : Str) (i : Nat), indexOf p s = some i →
+    s.take i ++ p ++ s.drop (i + p.length) = s := by
+  intro s
+  induction s with
+  | nil =>
+    intro i h
+    rw [indexOf] at h
+    split at h
+    · rename_i hp; cases h; subst hp; rfl
+    · cases h
+  | cons x xs ih =>
+    intro i h
+    rw [indexOf] at h
+    split at h
+    · rename_i hp
+      cases h
+      obtain ⟨t, ht⟩ := List.isPrefixOf_iff_prefix.mp hp
+      simp only [List.take_zero, List.nil_append, Nat.zero_add]
+      rw [← ht]; simp
+    · cases hj : indexOf p xs with
+      | none => rw [hj] at h; cases h
+      | some j =>
+        rw [hj] at h
+        simp only [Option.map_some, Option.some.injEq] at h
+        subst h
+        have := ih j hj
+        have e : j + 1 + p.length = (j + p.length) + 1 := by omega
+        rw [e, List.take_succ_cons, List.drop_succ_cons, List.cons_append, List.cons_append, this]
+
+/-- replacing the first occurrence of a string by itself changes nothing (`packWalkFn` with
+`src = dst`, as everywhere outside a dereferenced directory) -/
+theorem rt_replaceFirst_same (s old : Str) : replaceFirst s old old = s := by
+  unfold replaceFirst
+  split
+  · rfl
+  · rename_i i hi; exact rt_indexOf_spec old s i hi
+
+theorem rt_names_append {P : PPath} {rel : RelPath} (hP : ∀ c ∈ P, NameNS c) (hr : ∀ c ∈ rel, NameNS c) :
+    ∀ c ∈ P ++ rel, NameNS c := by
+  intro c hc
+  rcases List.mem_append.mp hc with h | h
+  · exact hP c h
+  · exact hr c h
+
+theorem rt_pathJoin_ofSegs (N : List Seg) (n : Seg) (hN : ∀ c ∈ N, NameNS c) (hn : NameNS n) :
+    pathJoin (ofSegs N) n = ofSegs (N ++ [n]) := by
+  rw [pathJoin_abs _ _ (ps_isAbs_ofSegs N), pathSegs_ofSegs N hN, ps_pathSegs_name n hn,
+    cleanSegs_plain true _ (fun x hx => (rt_names_append hN (by intro c hc; simp at hc; rw [hc]; exact hn) x hx).1)]
+
+theorem rt_pathRel_self (root : Str) : pathRel root root = some dot := by
+  unfold pathRel; simp
+
+theorem rt_joinWith_ne_dot (r : RelPath) (hr : ∀ c ∈ r, NameNS c) : joinWith '/' r ≠ dot := by
+  intro e
+  have h1 := rt_pathSegs_joinWith r hr
+  rw [e] at h1
+  have h2 : pathSegs dot = [] := by decide
+  rw [h2] at h1
+  rw [← h1] at e
+  exact absurd e (by decide)
+
+theorem rt_pathRel_below (root : Str) (rel : RelPath) (hroot : AbsClean root) (hne : rel ≠ [])
+    (hr : ∀ c ∈ rel, NameNS c) :
+    pathRel root (ofSegs (pathSegs root ++ rel)) = some (joinWith '/' rel) := by
+  have hN := rt_names_append (absClean_segs root hroot) hr
+  have hseg := pathSegs_ofSegs _ hN
+  obtain ⟨s, h1, _, _, h4⟩ := pathRel_under root (ofSegs (pathSegs root ++ rel)) hroot (absClean_ofSegs _ hN)
+    (by rw [hseg]; exact List.prefix_append _ _)
+  rw [h1]
+  rcases h4 with ⟨h, _⟩ | ⟨h, _⟩
+  · rw [hseg] at h
+    have := List.append_cancel_left (h.trans (List.append_nil _).symm)
+    exact absurd this hne
+  · rw [hseg] at h
+    have := List.append_cancel_left h
+    rw [← joinWith_splitOn '/' s, ← this]
+
+/-! ## `Lstat` and `Stat` on walk paths -/
+
+/-- every directory from `/` down to the source root is a real directory (no symlinked ancestor) -/
+def RtPhys (fs : FS) (P : PPath) : Prop :=
+  ∀ q, q ≠ [] → q <+: P → ∃ perm mt, fs.get q = some (.dir perm mt)
+
+theorem rt_resolve_below (fs : FS) (P : PPath) (rel : RelPath) (nd : Node) (fl : Bool) (hphys : RtPhys fs P)
+    (hnames : PackNamesOK fs) (hraw : rtRaw fs P rel = some nd) (hlen : (P ++ rel).length < resolveFuel)
+    (hfl : fl = true → ∀ t, nd ≠ .link t) :
+    fs.resolvePath (ofSegs (P ++ rel)) fl = .ok (P ++ rel) ∧ fs.lookup (P ++ rel) = some nd := by
+  obtain ⟨hne, hall, hget⟩ := rt_raw_some.mp hraw
+  have hN : ∀ c ∈ P ++ rel, NameNS c := hnames _ (rt_get_mem hget)
+  have hlook : fs.lookup (P ++ rel) = some nd := by
+    unfold FS.lookup
+    rw [if_neg (by simp [hne]), hget]
+  refine ⟨?_, hlook⟩
+  unfold FS.resolvePath
+  rw [pathSegs_ofSegs _ hN]
+  have := rt_resolve_phys fs resolveFuel [] (P ++ rel) fl hlen (fun s hs => (hN s hs).1.2.2)
+    (by
+      intro q hq
+      obtain ⟨g1, g2, g3⟩ := rt_properPrefixes_spec hq
+      rw [List.nil_append]
+      rcases List.prefix_or_prefix_of_prefix g2 (List.prefix_append P rel) with h | ⟨q', e⟩
+      · exact hphys q g1 h
+      · subst e
+        rw [List.prefix_append_right_inj] at g2
+        by_cases hq' : q' = []
+        · subst hq'; rw [List.append_nil] at g1 ⊢; exact hphys P g1 (List.prefix_refl _)
+        · exact hall q' (rt_properPrefixes_of hq' g2 (by simp at g3; omega)))
+    (by
+      intro h t
+      rw [List.nil_append, hget]
+      intro e; cases e
+      exact hfl h t rfl)
+  simpa using this
+
+theorem rt_lstat_below (fs : FS) (P : PPath) (rel : RelPath) (nd : Node) (hphys : RtPhys fs P)
+    (hnames : PackNamesOK fs) (hraw : rtRaw fs P rel = some nd) (hlen : (P ++ rel).length < resolveFuel) :
+    fs.lstat (ofSegs (P ++ rel)) = .ok nd := by
+  obtain ⟨h1, h2⟩ := rt_resolve_below fs P rel nd false hphys hnames hraw hlen (by intro h; cases h)
+  unfold FS.lstat
+  rw [h1]; simp only [h2]
+
+theorem rt_resolve_root (fs : FS) (P : PPath) (hphys : RtPhys fs P) (hP : ∀ c ∈ P, NameNS c)
+    (hlen : P.length < resolveFuel) : fs.resolvePath (ofSegs P) true = .ok P := by
+  unfold FS.resolvePath
+  rw [pathSegs_ofSegs _ hP]
+  by_cases hp : P = []
+  · subst hp; rfl
+  · have := rt_resolve_phys fs resolveFuel [] P true hlen (fun s hs => (hP s hs).1.2.2)
+      (by
+        intro q hq
+        obtain ⟨g1, g2, g3⟩ := rt_properPrefixes_spec hq
+        rw [List.nil_append]; exact hphys q g1 g2)
+      (by
+        intro _ t
+        rw [List.nil_append]
+        obtain ⟨perm, mt, h⟩ := hphys P hp (List.prefix_refl _)
+        rw [h]; intro e; cases e)
+    simpa using this
+
+/-! ## the callback on a node below the source root -/
+
+/-- the hypotheses of the Pack half of the round trip, for the walk root `root` -/
+structure RtCtx (fs : FS) (cwd : Str) (o : PackOpts) (root : Str) : Prop where
+  noDeref : o.dereference = false
+  rootClean : AbsClean root
+  phys : RtPhys fs (pathSegs root)
+  names : PackNamesOK fs
+  depth : ∀ e ∈ fs, pathSegs root <+: e.1 → e.1.length < resolveFuel
+  links : ∀ r t, rtRaw fs (pathSegs root) r = some (.link t) →
+    validSymlink cwd o.allow root (ofSegs (pathSegs root ++ r)) t = true
+
+/-- what the callback adds for one node -/
+def rtEmit (rel : RelPath) (nd : Node) : List (RelPath × Node) :=
+  match nd with
+  | .special => []
+  | _ => [(rel, nd)]
+
+theorem rt_raw_names {fs : FS} {P : PPath} {rel : RelPath} {nd : Node} (hnames : PackNamesOK fs)
+    (hraw : rtRaw fs P rel = some nd) : ∀ c ∈ P ++ rel, NameNS c :=
+  hnames _ (rt_get_mem (rt_raw_some.mp hraw).2.2)
+
+theorem rt_visit_aux {fs : FS} {cwd : Str} {o : PackOpts} {root : Str} (ctx : RtCtx fs cwd o root)
+    (fuel : Nat) (rel : RelPath) (nd : Node) (st : PState)
+    (hraw : rtRaw fs (pathSegs root) rel = some nd) :
+    (visit fs cwd o none root root root (fuel + 1) (ofSegs (pathSegs root ++ rel)) nd st).2 = .cont ∧
+    (visit fs cwd o none root root root (fuel + 1) (ofSegs (pathSegs root ++ rel)) nd st).1.entries =
+      st.entries ++ (rtEmit rel nd).map rtEntryP := by
+  have hne : rel ≠ [] := (rt_raw_some.mp hraw).1
+  have hN := rt_raw_names ctx.names hraw
+  have hrel : ∀ c ∈ rel, NameNS c := fun c hc => hN c (List.mem_append_right _ hc)
+  have h1 := rt_pathRel_below root rel ctx.rootClean hne hrel
+  have h2 := rt_joinWith_ne_dot rel hrel
+  have h3 := rt_replaceFirst_same (ofSegs (pathSegs root ++ rel)) root
+  have hlen : (pathSegs root ++ rel).length < resolveFuel :=
+    ctx.depth _ (rt_get_mem (rt_raw_some.mp hraw).2.2) (List.prefix_append _ _)
+  have hl := rt_lstat_below fs _ rel nd ctx.phys ctx.names hraw hlen
+  cases nd with
+  | special =>
+    rw [visit]
+    · simp [h1, h2, h3, ruleExcludes, rtEmit]
+    · intro _ _ h; cases h
+  | dir perm mt =>
+    rw [visit]
+    simp only [h1, h2, h3, ruleExcludes, if_false, Bool.false_eq_true, if_true]
+    exact ⟨trivial, rfl⟩
+  | file perm mt c =>
+    rw [visit]
+    · simp only [h1, h2, h3, ruleExcludes, if_false, Bool.false_eq_true, pk_readFile_of_lstat_file hl]
+      exact ⟨trivial, rfl⟩
+    · intro _ _ h; cases h
+  | link t =>
+    rw [visit]
+    · simp only [h1, h2, h3, ruleExcludes, if_false, Bool.false_eq_true, ctx.links rel t hraw, if_true]
+      exact ⟨trivial, rfl⟩
+    · intro _ _ h; cases h
+
+theorem rt_visit {fs : FS} {cwd : Str} {o : PackOpts} {root : Str} (ctx : RtCtx fs cwd o root)
+    (fuel : Nat) (rel : RelPath) (nd : Node) (st : PState)
+    (hraw : rtRaw fs (pathSegs root) rel = some nd) :
+    ∃ st', visit fs cwd o none root root root (fuel + 1) (ofSegs (pathSegs root ++ rel)) nd st = (st', .cont) ∧
+      st'.entries = st.entries ++ (rtEmit rel nd).map rtEntryP := by
+  obtain ⟨h1, h2⟩ := rt_visit_aux ctx fuel rel nd st hraw
+  exact ⟨_, Prod.ext rfl h1, h2⟩
+
+/-- on the source root itself the callback does nothing -/
+theorem rt_visit_root {fs : FS} {cwd : Str} {o : PackOpts} {root : Str} (fuel : Nat) (nd : Node) (st : PState) :
+    visit fs cwd o none root root root (fuel + 1) root nd st = (st, .cont) := by
+  cases nd <;> rw [visit] <;> first | (intro _ _ h; cases h) | simp [rt_pathRel_self]
+
+/-! ## listings of subtrees -/
+
+/-- `M` lists the region `S` of the source tree: exactly the reachable non-special nodes whose
+path lies in `S`, each once, and every directory before what is below it — unless that directory
+is `base` or above (it is then listed, if at all, before `M` starts) -/
+structure RtSub (fs : FS) (P : PPath) (base : RelPath) (S : RelPath → Prop) (M : List (RelPath × Node)) : Prop where
+  sound : ∀ x ∈ M, S x.1 ∧ rtRaw fs P x.1 = some x.2 ∧ x.2 ≠ .special
+  complete : ∀ r nd, S r → rtRaw fs P r = some nd → nd ≠ .special → (r, nd) ∈ M
+  nodup : (M.map (·.1)).Nodup
+  order : ∀ A x B, M = A ++ x :: B → ∀ q ∈ properPrefixes x.1,
+    q <+: base ∨ ∃ perm mt, (q, Node.dir perm mt) ∈ A
+
+theorem rt_pp_dropLast {p q : RelPath} (h : q ∈ properPrefixes p) : q <+: p.dropLast := by
+  obtain ⟨_, h2, h3⟩ := rt_properPrefixes_spec h
+  rcases ps_eq_nil_or_snoc p with e | ⟨l, b, e⟩
+  · subst e; simp at h3
+  · subst e
+    rw [List.dropLast_concat]
+    exact rt_prefix_snoc h2 h3
+
+theorem rt_prefix_proper {rel r : RelPath} (h : rel <+: r) (hne : r ≠ rel) :
+    ∃ n r', r = rel ++ n :: r' := by
+  obtain ⟨t, e⟩ := h
+  cases t with
+  | nil => rw [List.append_nil] at e; exact absurd e.symm hne
+  | cons n r' => exact ⟨n, r', e.symm⟩
+
+theorem rt_child_unique {rel k : RelPath} {n m : Str} (h1 : rel ++ [n] <+: k) (h2 : rel ++ [m] <+: k) : n = m := by
+  have h := List.prefix_of_prefix_length_le h1 h2 (by simp)
+  have e := h.eq_of_length (by simp)
+  have := List.append_cancel_left e
+  simpa using this
+
+theorem rt_emit_mem {rel : RelPath} {nd : Node} {x : RelPath × Node} (h : x ∈ rtEmit rel nd) :
+    x = (rel, nd) ∧ nd ≠ .special := by
+  cases nd <;> simp [rtEmit] at h <;> exact ⟨h, by intro e; cases e⟩
+
+theorem rt_mem_emit {rel : RelPath} {nd : Node} (h : nd ≠ .special) : (rel, nd) ∈ rtEmit rel nd := by
+  cases nd <;> first | exact absurd rfl h | simp [rtEmit]
+
+theorem rt_emit_cases (rel : RelPath) (nd : Node) : rtEmit rel nd = [] ∨ rtEmit rel nd = [(rel, nd)] := by
+  cases nd <;> simp [rtEmit]
+
+theorem rtSub_leaf {fs : FS} {P : PPath} {rel : RelPath} {nd : Node} (hraw : rtRaw fs P rel = some nd)
+    (hnd : ∀ perm mt, nd ≠ .dir perm mt) : RtSub fs P rel.dropLast (fun r => rel <+: r) (rtEmit rel nd) := by
+  have hne : rel ≠ [] := (rt_raw_some.mp hraw).1
+  refine ⟨?_, ?_, ?_, ?_⟩
+  · intro x hx
+    obtain ⟨e, hs⟩ := rt_emit_mem hx
+    subst e
+    exact ⟨List.prefix_refl _, hraw, hs⟩
+  · intro r nd' hS hr hs
+    by_cases e : r = rel
+    · subst e
+      rw [hraw] at hr; cases hr
+      exact rt_mem_emit hs
+    · have hl : rel.length < r.length := by
+        rcases Nat.lt_or_ge rel.length r.length with h | h
+        · exact h
+        · exact absurd (hS.eq_of_length (Nat.le_antisymm hS.length_le h)).symm e
+      obtain ⟨perm, mt, hd⟩ := rt_raw_prefix hr (rt_properPrefixes_of hne hS hl)
+      rw [hraw] at hd; cases hd
+      exact absurd rfl (hnd perm mt)
+  · rcases rt_emit_cases rel nd with e | e <;> rw [e] <;> simp
+  · intro A x B hM q hq
+    rcases rt_emit_cases rel nd with e | e
+    · rw [e] at hM
+      have := congrArg List.length hM
+      simp at this
+    · rw [e] at hM
+      cases A with
+      | nil =>
+        simp only [List.nil_append, List.cons.injEq] at hM
+        rw [← hM.1] at hq
+        exact Or.inl (rt_pp_dropLast hq)
+      | cons a A =>
+        have := congrArg List.length hM
+        simp at this
+
+theorem rtSub_dir {fs : FS} {P : PPath} {rel : RelPath} {perm : Nat} {mt : Int} {names : List Str}
+    {Mc : List (RelPath × Node)} (hraw : rtRaw fs P rel = some (.dir perm mt))
+    (hnames : ∀ n, (∃ nd, fs.get (P ++ (rel ++ [n])) = some nd) → n ∈ names)
+    (hc : RtSub fs P rel (fun r => ∃ n ∈ names, rel ++ [n] <+: r) Mc) :
+    RtSub fs P rel.dropLast (fun r => rel <+: r) ((rel, .dir perm mt) :: Mc) := by
+  have hne : rel ≠ [] := (rt_raw_some.mp hraw).1
+  have hlt : ∀ x ∈ Mc, rel.length < x.1.length := by
+    intro x hx
+    obtain ⟨⟨n, _, hp⟩, _⟩ := hc.sound x hx
+    have := hp.length_le
+    simp at this; omega
+  refine ⟨?_, ?_, ?_, ?_⟩
+  · intro x hx
+    rcases List.mem_cons.mp hx with e | hx
+    · subst e; exact ⟨List.prefix_refl _, hraw, by intro e; cases e⟩
+    · obtain ⟨⟨n, _, hp⟩, h2⟩ := hc.sound x hx
+      exact ⟨(List.prefix_append _ _).trans hp, h2⟩
+  · intro r nd hS hr hs
+    by_cases e : r = rel
+    · subst e
+      rw [hraw] at hr; cases hr
+      exact List.mem_cons_self
+    · obtain ⟨n, r', e'⟩ := rt_prefix_proper hS e
+      have hp : rel ++ [n] <+: r := ⟨r', by rw [e']; simp⟩
+      have hn : n ∈ names := by
+        apply hnames
+        by_cases hr' : r' = []
+        · subst hr'
+          exact ⟨nd, by rw [e'] at hr; exact (rt_raw_some.mp hr).2.2⟩
+        · have : rel ++ [n] ∈ properPrefixes r := by
+            apply rt_properPrefixes_of (by simp) hp
+            rw [e']
+            cases r' with
+            | nil => exact absurd rfl hr'
+            | cons a l => simp
+          obtain ⟨pm, t, h⟩ := (rt_raw_some.mp hr).2.1 _ this
+          exact ⟨_, h⟩
+      exact List.mem_cons_of_mem _ (hc.complete r nd ⟨n, hn, hp⟩ hr hs)
+  · rw [List.map_cons, List.nodup_cons]
+    refine ⟨?_, hc.nodup⟩
+    intro hm
+    obtain ⟨x, hx, e⟩ := List.mem_map.mp hm
+    have := hlt x hx
+    rw [e] at this
+    exact absurd this (Nat.lt_irrefl _)
+  · intro A x B hM q hq
+    cases A with
+    | nil =>
+      simp only [List.nil_append, List.cons.injEq] at hM
+      rw [← hM.1] at hq
+      exact Or.inl (rt_pp_dropLast hq)
+    | cons a A =>
+      simp only [List.cons_append, List.cons.injEq] at hM
+      obtain ⟨ea, hM⟩ := hM
+      rcases hc.order A x B hM q hq with h | ⟨pm, t, h⟩
+      · by_cases e : q = rel
+        · exact Or.inr ⟨perm, mt, by rw [e, ← ea]; exact List.mem_cons_self⟩
+        · left
+          have hl : q.length < rel.length := by
+            rcases Nat.lt_or_ge q.length rel.length with h' | h'
+            · exact h'
+            · exact absurd (h.eq_of_length (Nat.le_antisymm h.length_le h')) e
+          exact rt_pp_dropLast (rt_properPrefixes_of (rt_properPrefixes_spec hq).1 h hl)
+      · exact Or.inr ⟨pm, t, List.mem_cons_of_mem _ h⟩
+
+theorem rtSub_nil {fs : FS} {P : PPath} {rel : RelPath} :
+    RtSub fs P rel (fun r => ∃ n ∈ ([] : List Str), rel ++ [n] <+: r) [] := by
+  refine ⟨fun x hx => (nomatch hx), ?_, List.nodup_nil, ?_⟩
+  · rintro r nd ⟨n, hn, _⟩; cases hn
+  · intro A x B h
+    have := congrArg List.length h
+    simp at this
+
+theorem rtSub_cons {fs : FS} {P : PPath} {rel : RelPath} {n : Str} {rest : List Str}
+    {M1 M2 : List (RelPath × Node)} (hn : n ∉ rest)
+    (h1 : RtSub fs P rel (fun r => rel ++ [n] <+: r) M1)
+    (h2 : RtSub fs P rel (fun r => ∃ m ∈ rest, rel ++ [m] <+: r) M2) :
+    RtSub fs P rel (fun r => ∃ m ∈ n :: rest, rel ++ [m] <+: r) (M1 ++ M2) := by
+  refine ⟨?_, ?_, ?_, ?_⟩
+  · intro x hx
+    rcases List.mem_append.mp hx with h | h
+    · obtain ⟨a, b⟩ := h1.sound x h
+      exact ⟨⟨n, by simp, a⟩, b⟩
+    · obtain ⟨⟨m, hm, a⟩, b⟩ := h2.sound x h
+      exact ⟨⟨m, List.mem_cons_of_mem _ hm, a⟩, b⟩
+  · rintro r nd ⟨m, hm, hp⟩ hr hs
+    rcases List.mem_cons.mp hm with e | hm
+    · subst e; exact List.mem_append_left _ (h1.complete r nd hp hr hs)
+    · exact List.mem_append_right _ (h2.complete r nd ⟨m, hm, hp⟩ hr hs)
+  · rw [List.map_append, List.nodup_append]
+    refine ⟨h1.nodup, h2.nodup, ?_⟩
+    intro a ha b hb e
+    obtain ⟨x, hx, ex⟩ := List.mem_map.mp ha
+    obtain ⟨y, hy, ey⟩ := List.mem_map.mp hb
+    have p1 := (h1.sound x hx).1
+    obtain ⟨m, hm, p2⟩ := (h2.sound y hy).1
+    rw [ex] at p1; rw [ey, ← e] at p2
+    have := rt_child_unique p1 p2
+    exact hn (this ▸ hm)
+  · intro A x B hM q hq
+    rcases List.append_eq_append_iff.mp hM with ⟨a', eA, e2⟩ | ⟨c', e1, e2⟩
+    · rcases h2.order a' x B e2 q hq with h | ⟨pm, t, h⟩
+      · exact Or.inl h
+      · exact Or.inr ⟨pm, t, by rw [eA]; exact List.mem_append_right _ h⟩
+    · cases c' with
+      | nil =>
+        rw [List.nil_append] at e2
+        rcases h2.order [] x B e2.symm q hq with h | ⟨pm, t, h⟩
+        · exact Or.inl h
+        · cases h
+      | cons c c' =>
+        simp only [List.cons_append, List.cons.injEq] at e2
+        rw [← e2.1] at e1
+        exact h1.order A x c' e1 q hq
+
+/-! ## the walk -/
+
+/-- outcome of a walk function started in state `st`: out of fuel, or finished normally having
+appended the entries of a listing of the region -/
+def RtOut (fs : FS) (P : PPath) (base : RelPath) (S : RelPath → Prop) (st : PState) (res : PState × WalkRes) : Prop :=
+  res.2 = .stop .diverged ∨
+    (res.2 = .cont ∧ ∃ M, RtSub fs P base S M ∧ res.1.entries = st.entries ++ M.map rtEntryP)
+
+theorem rt_walk {fs : FS} {cwd : Str} {o : PackOpts} {root : Str} (ctx : RtCtx fs cwd o root) :
+    ∀ fuel : Nat,
+      (∀ rel nd st, rtRaw fs (pathSegs root) rel = some nd →
+        RtOut fs (pathSegs root) rel.dropLast (fun r => rel <+: r) st
+          (walkNode fs cwd o none root root root fuel (ofSegs (pathSegs root ++ rel)) nd st)) ∧
+      (∀ rel names st, RtDirAt fs (pathSegs root) rel → names.Nodup →
+        (∀ n ∈ names, ∃ nd, fs.get (pathSegs root ++ (rel ++ [n])) = some nd) →
+        RtOut fs (pathSegs root) rel (fun r => ∃ n ∈ names, rel ++ [n] <+: r) st
+          (walkChildren fs cwd o none root root root fuel (ofSegs (pathSegs root ++ rel)) names st)) := by
+  intro fuel
+  induction fuel with
+  | zero =>
+    refine ⟨?_, ?_⟩
+    · intro rel nd st _; rw [walkNode]; exact Or.inl rfl
+    · intro rel names st _ _ _; rw [walkChildren]; exact Or.inl rfl
+  | succ fuel ih =>
+    obtain ⟨ihN, ihC⟩ := ih
+    refine ⟨?_, ?_⟩
+    · intro rel nd st hraw
+      have hleaf : (∀ perm mt, nd ≠ .dir perm mt) →
+          RtOut fs (pathSegs root) rel.dropLast (fun r => rel <+: r) st
+            (visit fs cwd o none root root root fuel (ofSegs (pathSegs root ++ rel)) nd st) := by
+        intro hnd
+        cases fuel with
+        | zero => rw [visit]; exact Or.inl rfl
+        | succ f =>
+          obtain ⟨st', hv, he⟩ := rt_visit ctx f rel nd st hraw
+          rw [hv]
+          exact Or.inr ⟨rfl, _, rtSub_leaf hraw hnd, he⟩
+      cases nd with
+      | file perm mt c =>
+        rw [walkNode]
+        · exact hleaf (by intro _ _ h; cases h)
+        · intro _ _ h; cases h
+      | link t =>
+        rw [walkNode]
+        · exact hleaf (by intro _ _ h; cases h)
+        · intro _ _ h; cases h
+      | special =>
+        rw [walkNode]
+        · exact hleaf (by intro _ _ h; cases h)
+        · intro _ _ h; cases h
+      | dir perm mt =>
+        cases fuel with
+        | zero =>
+          rw [walkNode, visit]
+          exact Or.inl rfl
+        | succ f =>
+          obtain ⟨st1, hv, he⟩ := rt_visit ctx f rel _ st hraw
+          have hlen : (pathSegs root ++ rel).length < resolveFuel :=
+            ctx.depth _ (rt_get_mem (rt_raw_some.mp hraw).2.2) (List.prefix_append _ _)
+          have hp := (rt_resolve_below fs _ rel _ true ctx.phys ctx.names hraw hlen
+            (by intro _ t h; cases h)).1
+          rw [pk_walkNode_dir_cont fs cwd o none root root root (f + 1) _ perm mt st st1 _ hv hp]
+          obtain ⟨hnd, hmem⟩ := rt_readdir_spec fs (pathSegs root ++ rel)
+          have hmem' : ∀ n, n ∈ fs.readdir (pathSegs root ++ rel) ↔
+              ∃ nd, fs.get (pathSegs root ++ (rel ++ [n])) = some nd := by
+            intro n; rw [hmem, List.append_assoc]
+          rcases ihC rel (fs.readdir (pathSegs root ++ rel)) st1 (Or.inr ⟨perm, mt, hraw⟩) hnd
+            (fun n hn => (hmem' n).mp hn) with h | ⟨hc, Mc, hsub, hent⟩
+          · exact Or.inl h
+          · refine Or.inr ⟨hc, (rel, .dir perm mt) :: Mc, rtSub_dir hraw (fun n hn => (hmem' n).mpr hn) hsub, ?_⟩
+            rw [hent, he]
+            simp [rtEmit]
+    · intro rel names st hdir hnd hmem
+      cases names with
+      | nil =>
+        rw [walkChildren]
+        exact Or.inr ⟨rfl, [], rtSub_nil, by simp⟩
+      | cons n rest =>
+        obtain ⟨child, hchild⟩ := hmem n (by simp)
+        have hrawc : rtRaw fs (pathSegs root) (rel ++ [n]) = some child := by
+          rw [rt_raw_child n hdir]; exact hchild
+        have hN := rt_raw_names ctx.names hrawc
+        have hN1 : ∀ c ∈ pathSegs root ++ rel, NameNS c := by
+          intro c hc
+          apply hN c
+          rw [← List.append_assoc]; exact List.mem_append_left _ hc
+        have hn : NameNS n := hN n (by simp)
+        have hjoin : pathJoin (ofSegs (pathSegs root ++ rel)) n = ofSegs (pathSegs root ++ (rel ++ [n])) := by
+          rw [rt_pathJoin_ofSegs _ n hN1 hn, List.append_assoc]
+        have hlen : (pathSegs root ++ (rel ++ [n])).length < resolveFuel :=
+          ctx.depth _ (rt_get_mem hchild) (List.prefix_append _ _)
+        have hl : fs.lstat (pathJoin (ofSegs (pathSegs root ++ rel)) n) = .ok child := by
+          rw [hjoin]; exact rt_lstat_below fs _ _ child ctx.phys ctx.names hrawc hlen
+        have hnd' := List.nodup_cons.mp hnd
+        have h1 := ihN (rel ++ [n]) child st hrawc
+        rw [List.dropLast_concat, ← hjoin] at h1
+        rcases h1 with h | ⟨hc, M1, hsub1, hent1⟩
+        · left
+          rw [pk_walkChildren_stop_of_child fs cwd o none root root root fuel _ n rest child st _ .diverged hl
+            (Prod.ext rfl h)]
+        · rw [pk_walkChildren_cont_of_child fs cwd o none root root root fuel _ n rest child st _ hl
+            (Prod.ext rfl hc)]
+          rcases ihC rel rest _ hdir hnd'.2 (fun m hm => hmem m (List.mem_cons_of_mem _ hm)) with
+            h | ⟨hc2, M2, hsub2, hent2⟩
+          · exact Or.inl h
+          · refine Or.inr ⟨hc2, M1 ++ M2, rtSub_cons hnd'.1 hsub1 hsub2, ?_⟩
+            rw [hent2, hent1]; simp
+
+/-! ## `Pack` -/
+
+theorem rt_root_facts {fs : FS} {cwd : Str} {o : PackOpts} {root : Str} (ctx : RtCtx fs cwd o root) :
+    root = ofSegs (pathSegs root) ∧ (∀ c ∈ pathSegs root, NameNS c) ∧ (pathSegs root).length < resolveFuel ∧
+    ∃ perm mt, fs.lstat root = .ok (.dir perm mt) := by
+  have e := absClean_eq_ofSegs root ctx.rootClean
+  have hP := absClean_segs root ctx.rootClean
+  by_cases hp : pathSegs root = []
+  · refine ⟨e, hP, by rw [hp]; decide, 0o755, 0, ?_⟩
+    unfold FS.lstat FS.resolvePath
+    rw [hp]
+    rfl
+  · obtain ⟨perm, mt, hg⟩ := ctx.phys _ hp (List.prefix_refl _)
+    have hlen : (pathSegs root).length < resolveFuel := ctx.depth _ (rt_get_mem hg) (List.prefix_refl _)
+    refine ⟨e, hP, hlen, perm, mt, ?_⟩
+    have := rt_resolve_phys fs resolveFuel [] (pathSegs root) false hlen (fun s hs => (hP s hs).1.2.2)
+      (by
+        intro q hq
+        obtain ⟨g1, g2, g3⟩ := rt_properPrefixes_spec hq
+        rw [List.nil_append]; exact ctx.phys q g1 g2)
+      (by intro h; cases h)
+    rw [List.nil_append] at this
+    unfold FS.lstat FS.resolvePath
+    rw [this]
+    simp only [FS.lookup, if_neg hp, hg]
+
+theorem rt_raw_first {fs : FS} {P : PPath} {n : Str} {r' : RelPath} {nd : Node}
+    (h : rtRaw fs P (n :: r') = some nd) : ∃ nd', fs.get (P ++ [n]) = some nd' := by
+  obtain ⟨_, hall, hget⟩ := rt_raw_some.mp h
+  cases r' with
+  | nil => exact ⟨nd, hget⟩
+  | cons a l =>
+    obtain ⟨pm, t, hd⟩ := hall [n]
+      (rt_properPrefixes_of (by simp) (List.cons_prefix_cons.mpr ⟨rfl, List.nil_prefix⟩) (by simp))
+    exact ⟨_, hd⟩
+
+/-- **the entries of `Pack`** on a physical source directory without ignore rules and
+dereferencing, all of whose links are accepted: unless the model's fuel runs out the result is
+`ok`, and the entry list is `rtEntry` mapped over a listing `M` of *all* reachable non-special
+nodes below the source (`RtSub` with the region "every non-empty relative path"): each exactly
+once, every directory before what is below it. -/
+theorem rt_pack_listing {fs : FS} {cwd : Str} {o : PackOpts} {src : Str} (ctx : RtCtx fs cwd o src)
+    (hign : o.applyIgnore = false) (hfuel : (pack fs cwd o src).2 ≠ .diverged) :
+    (pack fs cwd o src).2 = .ok ∧
+    ∃ M, (pack fs cwd o src).1.entries = M.map rtEntryP ∧
+      RtSub fs (pathSegs src) [] (fun r => r ≠ []) M := by
+  obtain ⟨eroot, hP, hlenP, perm, mt, hl⟩ := rt_root_facts ctx
+  have hinfo : pkRootInfo fs cwd src = .ok (.dir perm mt) := by
+    rw [pk_rootInfo_absClean fs cwd src ctx.rootClean, hl]
+  have hsrc1 : pkSrc1 fs cwd src = src := by unfold pkSrc1; rw [hinfo]
+  have hroot : pkRoot fs cwd src = src := by
+    unfold pkRoot; rw [hsrc1]; exact pathAbs_absClean cwd src ctx.rootClean
+  have hrules : pkRules fs cwd o src = none := by unfold pkRules; rw [hign]; rfl
+  have hpack : pack fs cwd o src =
+      pkFinish (walkNode fs cwd o none src src src packFuel src (.dir perm mt) pkEmpty) := by
+    rw [pk_pack_eq, hinfo, hroot, hrules, hl]
+  have hres : fs.resolvePath src true = .ok (pathSegs src) := by
+    have := rt_resolve_root fs (pathSegs src) ctx.phys hP hlenP
+    rw [← eroot] at this; exact this
+  have hwalk : walkNode fs cwd o none src src src packFuel src (.dir perm mt) pkEmpty =
+      walkChildren fs cwd o none src src src (3998 + 1) (ofSegs (pathSegs src ++ []))
+        (fs.readdir (pathSegs src)) pkEmpty := by
+    rw [List.append_nil, ← eroot]
+    exact pk_walkNode_dir_cont fs cwd o none src src src (3998 + 1) src perm mt pkEmpty pkEmpty _
+      (rt_visit_root 3998 _ _) hres
+  obtain ⟨hnd, hmem⟩ := rt_readdir_spec fs (pathSegs src)
+  have hout := (rt_walk ctx (3998 + 1)).2 [] (fs.readdir (pathSegs src)) pkEmpty (Or.inl rfl) hnd
+    (fun n hn => (hmem n).mp hn)
+  rw [← hwalk] at hout
+  rw [hpack] at hfuel ⊢
+  rcases hout with h | ⟨hc, M, hsub, hent⟩
+  · exact absurd (by unfold pkFinish; rw [h]) hfuel
+  · refine ⟨by unfold pkFinish; rw [hc], M, by rw [pkFinish_fst, hent]; rfl, ?_⟩
+    refine ⟨?_, ?_, hsub.nodup, hsub.order⟩
+    · intro x hx
+      obtain ⟨_, h2, h3⟩ := hsub.sound x hx
+      exact ⟨(rt_raw_some.mp h2).1, h2, h3⟩
+    · intro r nd hr hraw hs
+      cases r with
+      | nil => exact absurd rfl hr
+      | cons n r' =>
+        obtain ⟨nd', hg⟩ := rt_raw_first hraw
+        exact hsub.complete _ nd ⟨n, (hmem n).mpr ⟨nd', hg⟩, by simp⟩ hraw hs
+
+/-- a complete listing is a listing in the sense of `rt_untar_listing` -/
+theorem rtSub_listing {fs : FS} {P : PPath} {M : List (RelPath × Node)} (hnames : PackNamesOK fs)
+    (h : RtSub fs P [] (fun r => r ≠ []) M) : RtListing M := by
+  refine ⟨?_, h.nodup, ?_⟩
+  · intro x hx
+    obtain ⟨h1, h2, h3⟩ := h.sound x hx
+    exact ⟨h1, fun c hc => rt_raw_names hnames h2 c (List.mem_append_right _ hc), h3⟩
+  · intro A x B hM q hq
+    rcases h.order A x B hM q hq with h' | h'
+    · exact absurd (List.prefix_nil.mp h') (rt_properPrefixes_spec hq).1
+    · exact h'
+
+/-- **`untar` of what `Pack` wrote is the source tree** -/
+theorem rt_pack_untar {fs : FS} {cwd : Str} {o : PackOpts} {src : Str} (ctx : RtCtx fs cwd o src)
+    (hign : o.applyIgnore = false) (hfuel : (pack fs cwd o src).2 ≠ .diverged) :
+    ∃ t, untar (pack fs cwd o src).1.entries = some t ∧
+      ∀ r, r ≠ [] → treeGet t r = srcNode fs (pathSegs src) r := by
+  obtain ⟨_, M, hent, hsub⟩ := rt_pack_listing ctx hign hfuel
+  obtain ⟨t, ht, h1, h2⟩ := rt_untar_listing M (rtSub_listing ctx.names hsub)
+  refine ⟨t, by rw [hent]; exact ht, ?_⟩
+  intro r hr
+  unfold srcNode
+  cases hraw : rtRaw fs (pathSegs src) r with
+  | none =>
+    rw [h2 r hr]
+    · rfl
+    · intro hm
+      obtain ⟨x, hx, e⟩ := List.mem_map.mp hm
+      have := (hsub.sound x hx).2.1
+      rw [e, hraw] at this; cases this
+  | some nd =>
+    by_cases hs : nd = .special
+    · subst hs
+      rw [h2 r hr]
+      · rfl
+      · intro hm
+        obtain ⟨x, hx, e⟩ := List.mem_map.mp hm
+        obtain ⟨_, g1, g2⟩ := hsub.sound x hx
+        rw [e, hraw] at g1
+        exact g2 (Option.some.inj g1).symm
+    · exact h1 r nd (hsub.complete r nd hr hraw hs)
+
+/-! ## the statement of C02 on entries -/
+
+/-- the node an entry stands for -/
+def rtNodeOf (e : Entry) : Node :=
+  if e.isDir then .dir e.mode e.mtime
+  else if e.isSymlink then .link e.link
+  else .file e.mode e.mtime e.body
+
+theorem rt_nodeOf_rtEntry (r : RelPath) (nd : Node) (h : nd ≠ .special) :
+    some (rtNodeOf (rtEntry r nd)) = rtConv nd := by
+  cases nd with
+  | special => exact absurd rfl h
+  | dir perm mt => rfl
+  | file perm mt c => rfl
+  | link t => rfl
+
+theorem rt_isDir_rtEntry (r : RelPath) (nd : Node) : (rtEntry r nd).isDir = true ↔ ∃ perm mt, nd = .dir perm mt := by
+  cases nd with
+  | dir perm mt => exact ⟨fun _ => ⟨perm, mt, rfl⟩, fun _ => rfl⟩
+  | file perm mt c => exact ⟨fun h => (nomatch h), fun ⟨_, _, h⟩ => (nomatch h)⟩
+  | link t => exact ⟨fun h => (nomatch h), fun ⟨_, _, h⟩ => (nomatch h)⟩
+  | special => exact ⟨fun h => (nomatch h), fun ⟨_, _, h⟩ => (nomatch h)⟩
+
+theorem rt_keys_eq {M : List (RelPath × Node)} (hM : RtListing M) :
+    (M.map rtEntryP).map (fun e => entryRel e.name) = M.map (·.1) := by
+  rw [List.map_map]
+  apply List.map_congr_left
+  intro x hx
+  exact rt_entryRel_rtEntry x.1 x.2 (hM.names x hx).2.1
+
+theorem rt_srcNode_link {fs : FS} {P : PPath} {r : RelPath} {t : Str} :
+    srcNode fs P r = some (.link t) ↔ rtRaw fs P r = some (.link t) := by
+  unfold srcNode
+  cases h : rtRaw fs P r with
+  | none => simp
+  | some nd =>
+    cases nd <;> simp [rtConv]
+
+theorem rt_srcNode_isSome {fs : FS} {P : PPath} {r : RelPath} :
+    (srcNode fs P r).isSome = true ↔ ∃ nd, rtRaw fs P r = some nd ∧ nd ≠ .special := by
+  unfold srcNode
+  cases h : rtRaw fs P r with
+  | none => simp
+  | some nd =>
+    cases nd <;> simp [rtConv]
+
+/-- `rt_pack_listing` read off the entry list -/
+theorem rt_pack_preorder {fs : FS} {cwd : Str} {o : PackOpts} {src : Str} (ctx : RtCtx fs cwd o src)
+    (hign : o.applyIgnore = false) (hfuel : (pack fs cwd o src).2 ≠ .diverged) :
+    (pack fs cwd o src).2 = .ok ∧
+    ((pack fs cwd o src).1.entries.map (fun e => entryRel e.name)).Nodup ∧
+    (∀ r, r ∈ (pack fs cwd o src).1.entries.map (fun e => entryRel e.name) ↔
+      (srcNode fs (pathSegs src) r).isSome = true) ∧
+    (∀ e ∈ (pack fs cwd o src).1.entries, ∃ nd, rtRaw fs (pathSegs src) (entryRel e.name) = some nd ∧
+      nd ≠ .special ∧ e = rtEntry (entryRel e.name) nd) ∧
+    (∀ A e B, (pack fs cwd o src).1.entries = A ++ e :: B → ∀ q ∈ properPrefixes (entryRel e.name),
+      ∃ d ∈ A, d.isDir = true ∧ entryRel d.name = q) := by
+  obtain ⟨hok, M, hent, hsub⟩ := rt_pack_listing ctx hign hfuel
+  have hM := rtSub_listing ctx.names hsub
+  have hkeys := rt_keys_eq hM
+  refine ⟨hok, ?_, ?_, ?_, ?_⟩
+  · rw [hent, hkeys]; exact hsub.nodup
+  · intro r
+    rw [hent, hkeys, rt_srcNode_isSome]
+    constructor
+    · intro hm
+      obtain ⟨x, hx, e⟩ := List.mem_map.mp hm
+      obtain ⟨_, h2, h3⟩ := hsub.sound x hx
+      exact ⟨x.2, by rw [← e]; exact h2, h3⟩
+    · rintro ⟨nd, h1, h2⟩
+      exact List.mem_map.mpr ⟨(r, nd), hsub.complete r nd (rt_raw_some.mp h1).1 h1 h2, rfl⟩
+  · intro e he
+    rw [hent] at he
+    obtain ⟨x, hx, rfl⟩ := List.mem_map.mp he
+    obtain ⟨_, h2, h3⟩ := hsub.sound x hx
+    have hk : entryRel (rtEntryP x).name = x.1 := rt_entryRel_rtEntry x.1 x.2 (hM.names x hx).2.1
+    exact ⟨x.2, by rw [hk]; exact h2, h3, by rw [hk]; rfl⟩
+  · intro A e B hes q hq
+    rw [hent] at hes
+    obtain ⟨A', R, hMe, hA, hR⟩ := List.map_eq_append_iff.mp hes
+    obtain ⟨x, B', hRe, hx, _⟩ := List.map_eq_cons_iff.mp hR
+    subst hRe
+    have hxm : x ∈ M := by rw [hMe]; simp
+    have hk : entryRel e.name = x.1 := by
+      rw [← hx]; exact rt_entryRel_rtEntry x.1 x.2 (hM.names x hxm).2.1
+    rw [hk] at hq
+    obtain ⟨pm, t, hd⟩ := hM.order A' x B' hMe q hq
+    have hdm : (q, Node.dir pm t) ∈ M := by rw [hMe]; exact List.mem_append_left _ hd
+    refine ⟨rtEntryP (q, .dir pm t), by rw [← hA]; exact List.mem_map.mpr ⟨_, hd, rfl⟩, rfl, ?_⟩
+    exact rt_entryRel_rtEntry q _ (hM.names _ hdm).2.1
+
+/-! ## entry names in general (any options): `Rel` never returns an empty string -/
+
+theorem rt_split_join_filter (N : List Seg) (h : ∀ x ∈ N, PkSeg x) :
+    (splitOn '/' (joinWith '/' N)).filter (· ≠ []) = N := by
+  by_cases hne : N = []
+  · subst hne; decide
+  · rw [splitOn_joinWith '/' N hne (fun x hx => (h x hx).1), List.filter_eq_self]
+    intro x hx
+    simp [(h x hx).2.1]
+
+/-- the path segments of a cleaned path, as `filepath.Rel` computes them -/
+def rtRelSegs (c : Str) : List Seg := (splitOn '/' (if isAbs c then c.drop 1 else c)).filter (· ≠ [])
+
+/-- a cleaned path is its segments joined again, behind `/` if it is rooted -/
+theorem rt_clean_recompose (s : Str) :
+    pathClean s = (if isAbs (pathClean s) then ['/'] else []) ++ joinWith '/' (rtRelSegs (pathClean s)) := by
+  unfold rtRelSegs
+  by_cases ha : isAbs s = true
+  · have e : pathClean s = '/' :: joinWith '/' (cleanSegs true (splitOn '/' s)) := by
+      unfold pathClean; simp [ha]
+    have habs : isAbs (pathClean s) = true := by rw [e]; rfl
+    rw [habs]
+    simp only [if_true]
+    rw [e]
+    simp only [List.drop_succ_cons, List.drop_zero]
+    rw [rt_split_join_filter _ (pk_cleanSegs_pkSeg true s)]
+    rfl
+  · have ha' : isAbs s = false := by simpa using ha
+    by_cases hs : cleanSegs false (splitOn '/' s) = []
+    · have e : pathClean s = dot := by unfold pathClean; simp [ha', hs]
+      rw [e]; decide
+    · have e : pathClean s = joinWith '/' (cleanSegs false (splitOn '/' s)) := by
+        unfold pathClean; simp [ha', hs]
+      have habs : isAbs (pathClean s) = false := pk_isAbs_pathClean_rel s ha'
+      rw [habs]
+      simp only [Bool.false_eq_true, if_false, List.nil_append]
+      rw [e, rt_split_join_filter _ (pk_cleanSegs_pkSeg false s)]
+
+theorem rt_clean_ne_nil (s : Str) : pathClean s ≠ [] := by
+  by_cases ha : isAbs s = true
+  · unfold pathClean; simp [ha]
+  · have ha' : isAbs s = false := by simpa using ha
+    by_cases hs : cleanSegs false (splitOn '/' s) = []
+    · have e : pathClean s = dot := by unfold pathClean; simp [ha', hs]
+      rw [e]; decide
+    · have e : pathClean s = joinWith '/' (cleanSegs false (splitOn '/' s)) := by
+        unfold pathClean; simp [ha', hs]
+      rw [e]
+      intro e'
+      have h1 := pk_pathSegs_joinWith _ (pk_cleanSegs_pkSeg false s)
+      rw [e'] at h1
+      exact hs (h1.symm.trans ps_pathSegs_nil)
+
+theorem rt_strip_eq_nil : ∀ (xs ys : List Seg), pathRel.strip xs ys = ([], []) → xs = ys := by
+  intro xs
+  induction xs with
+  | nil => intro ys h; cases ys <;> simp [pathRel.strip] at h ⊢
+  | cons x xs ih =>
+    intro ys h
+    cases ys with
+    | nil => simp [pathRel.strip] at h
+    | cons y ys =>
+      rw [pathRel.strip] at h
+      split at h
+      · rename_i e; rw [e, ih ys h]
+      · simp at h
+
+theorem rt_strip_snd_mem : ∀ (xs ys : List Seg), ∀ z ∈ (pathRel.strip xs ys).2, z ∈ ys := by
+  intro xs
+  induction xs with
+  | nil =>
+    intro ys z hz
+    cases ys with
+    | nil => simp [pathRel.strip] at hz
+    | cons y ys => simpa [pathRel.strip] using hz
+  | cons x xs ih =>
+    intro ys z hz
+    cases ys with
+    | nil => simp [pathRel.strip] at hz
+    | cons y ys =>
+      rw [pathRel.strip] at hz
+      split at hz
+      · exact List.mem_cons_of_mem _ (ih ys z hz)
+      · exact hz
+
+
+theorem rt_relSegs_mem (c : Str) : ∀ x ∈ rtRelSegs c, x ≠ [] ∧ '/' ∉ x := by
+  intro x hx
+  unfold rtRelSegs at hx
+  rw [List.mem_filter] at hx
+  exact ⟨by simpa using hx.2, splitOn_noSep '/' _ x hx.1⟩
+
+theorem rt_strip_nil (ys : List Seg) : pathRel.strip [] ys = ([], ys) := by
+  cases ys <;> simp [pathRel.strip]
+
+theorem rt_pathRel_shape (a b sub : Str) (h : pathRel a b = some sub) (hd : sub ≠ dot) :
+    ∃ L : List Seg, L ≠ [] ∧ (∀ x ∈ L, x ≠ [] ∧ '/' ∉ x) ∧ sub = joinWith '/' L := by
+  have hrB := rt_clean_recompose a
+  have hrT := rt_clean_recompose b
+  have hnB := rt_clean_ne_nil a
+  have hnT := rt_clean_ne_nil b
+  unfold pathRel at h
+  simp only at h
+  generalize pathClean a = B at *
+  generalize pathClean b = T at *
+  have eB : List.filter (fun x => decide (x ≠ [])) (splitOn '/' (if isAbs B = true then List.drop 1 B else B)) =
+      rtRelSegs B := rfl
+  have eT : List.filter (fun x => decide (x ≠ [])) (splitOn '/' (if isAbs T = true then List.drop 1 T else T)) =
+      rtRelSegs T := rfl
+  by_cases hbt : B = T
+  · rw [if_pos hbt] at h; cases h; exact absurd rfl hd
+  rw [if_neg hbt] at h
+  by_cases hbd : B = dot
+  · simp only [if_pos hbd, eT, ne_eq, not_true_eq_false, and_false, if_false, true_and, if_true, rt_strip_nil,
+      List.any_nil, Bool.false_eq_true, List.map_nil, List.nil_append] at h
+    split at h
+    · cases h
+    · rename_i habs
+      cases h
+      refine ⟨rtRelSegs T, ?_, rt_relSegs_mem T, rfl⟩
+      intro e
+      rw [e] at hrT
+      simp only [habs, if_false, Bool.false_eq_true] at hrT
+      exact hnT hrT
+  · simp only [if_neg hbd, hnB, eB, eT, ne_eq, not_false_eq_true, and_true, false_and, if_false] at h
+    split at h
+    · cases h
+    · rename_i habs
+      have habs' : isAbs B = isAbs T := by simpa using habs
+      split at h
+      · cases h
+      · cases h
+        refine ⟨_, ?_, ?_, rfl⟩
+        · intro e
+          have e1 : (pathRel.strip (rtRelSegs B) (rtRelSegs T)).1 = [] := by
+            cases hx : (pathRel.strip (rtRelSegs B) (rtRelSegs T)).1 with
+            | nil => rfl
+            | cons x xs => rw [hx] at e; simp at e
+          have e2 : (pathRel.strip (rtRelSegs B) (rtRelSegs T)).2 = [] := by
+            rw [e1] at e; simpa using e
+          have := rt_strip_eq_nil _ _ (Prod.ext e1 e2)
+          apply hbt
+          rw [hrB, hrT, habs', this]
+        · intro x hx
+          rcases List.mem_append.mp hx with h' | h'
+          · obtain ⟨_, _, rfl⟩ := List.mem_map.mp h'
+            exact ⟨by decide, by decide⟩
+          · exact rt_relSegs_mem T x (rt_strip_snd_mem _ _ x h')
+
+theorem rt_joinWith_last (L : List Seg) (hne : L ≠ []) (h : ∀ x ∈ L, x ≠ [] ∧ '/' ∉ x) :
+    ∃ t y, joinWith '/' L = t ++ [y] ∧ y ≠ '/' := by
+  rcases ps_eq_nil_or_snoc L with e | ⟨L', x, e⟩
+  · exact absurd e hne
+  · have hx := h x (by rw [e]; simp)
+    rcases ps_eq_nil_or_snoc x with ex | ⟨x', y, ex⟩
+    · exact absurd ex hx.1
+    · have hy : y ≠ '/' := by
+        intro hy; apply hx.2; rw [ex, hy]; simp
+      by_cases hL' : L' = []
+      · refine ⟨x', y, ?_, hy⟩
+        rw [e, hL', ex]; simp [joinWith]
+      · refine ⟨joinWith '/' L' ++ '/' :: x', y, ?_, hy⟩
+        rw [e, ps_joinWith_append '/' L' [x] hL' (by simp), ex]; simp [joinWith]
+
+/-- a result of `filepath.Rel` other than `.` is not empty and does not end in a separator -/
+theorem rt_pathRel_sub (a b sub : Str) (h : pathRel a b = some sub) (hd : sub ≠ dot) :
+    sub ≠ [] ∧ hasSuffix sub ['/'] = false := by
+  obtain ⟨L, h1, h2, h3⟩ := rt_pathRel_shape a b sub h hd
+  obtain ⟨t, y, e, hy⟩ := rt_joinWith_last L h1 h2
+  rw [h3, e]
+  refine ⟨by simp, ?_⟩
+  simp [hasSuffix, List.isPrefixOf, hy.symm]
+
+/-- the shape of an entry `packWalkFn` writes, whatever the options: the name is a result of
+`filepath.Rel` other than `.` (plus `/` for a directory), the type is one of the three the code
+produces -/
+def RtNameOK (e : Entry) : Prop :=
+  ∃ a b sub, pathRel a b = some sub ∧ sub ≠ dot ∧
+    ((e.typ = tDir ∧ e.name = sub ++ ['/']) ∨ ((e.typ = tReg ∨ e.typ = tSymlink) ∧ e.name = sub))
+
+def RtAllNames (st : PState) : Prop := ∀ e ∈ st.entries, RtNameOK e
+
+theorem rt_names_push {st : PState} {e : Entry} {pm : PMeta} (h : RtAllNames st) (he : RtNameOK e) :
+    RtAllNames { entries := st.entries ++ [e], pmeta := pm } := by
+  intro x hx
+  rcases List.mem_append.mp hx with h' | h'
+  · exact h x h'
+  · simp only [List.mem_singleton] at h'; rw [h']; exact he
+
+theorem rt_visit_names (fs : FS) (cwd : Str) (o : PackOpts) (rules : Option (List Rule)) (root : Str) (fuel : Nat)
+    (ihN : ∀ src dst path node st, RtAllNames st →
+      RtAllNames (walkNode fs cwd o rules root src dst fuel path node st).1) :
+    ∀ src dst path node st, RtAllNames st →
+      RtAllNames (visit fs cwd o rules root src dst (fuel + 1) path node st).1 := by
+  intro src dst path node st hst
+  cases node <;> rw [visit] <;> first | (intro _ _ h; cases h) | skip
+  all_goals simp only [↓reduceIte, Bool.false_eq_true]
+  all_goals repeat' split
+  all_goals first
+    | exact hst
+    | exact ihN _ _ _ _ _ hst
+    | exact rt_names_push hst ⟨_, _, _, ‹pathRel root (replaceFirst _ _ _) = some _›, ‹_›, Or.inl ⟨rfl, rfl⟩⟩
+    | exact rt_names_push hst ⟨_, _, _, ‹pathRel root (replaceFirst _ _ _) = some _›, ‹_›, Or.inr ⟨Or.inl rfl, rfl⟩⟩
+    | exact rt_names_push hst ⟨_, _, _, ‹pathRel root (replaceFirst _ _ _) = some _›, ‹_›, Or.inr ⟨Or.inr rfl, rfl⟩⟩
+
+theorem rt_walk_names (fs : FS) (cwd : Str) (o : PackOpts) (rules : Option (List Rule)) (root : Str) :
+    ∀ fuel : Nat,
+      (∀ src dst path node st, RtAllNames st →
+        RtAllNames (walkNode fs cwd o rules root src dst fuel path node st).1) ∧
+      (∀ src dst path names st, RtAllNames st →
+        RtAllNames (walkChildren fs cwd o rules root src dst fuel path names st).1) ∧
+      (∀ src dst path node st, RtAllNames st →
+        RtAllNames (visit fs cwd o rules root src dst fuel path node st).1) := by
+  intro fuel
+  induction fuel with
+  | zero =>
+    refine ⟨?_, ?_, ?_⟩
+    · intro src dst path node st h; rw [walkNode]; exact h
+    · intro src dst path names st h; rw [walkChildren]; exact h
+    · intro src dst path node st h; rw [visit]; exact h
+  | succ fuel ih =>
+    obtain ⟨ihN, ihC, ihV⟩ := ih
+    refine ⟨?_, ?_, ?_⟩
+    · intro src dst path node st hst
+      have hv := ihV src dst path node st hst
+      cases node with
+      | dir perm mt =>
+        rw [walkNode]
+        simp only
+        split
+        · split
+          · exact hv
+          · exact ihC _ _ _ _ _ hv
+        · exact hv
+      | file perm mt c => rw [walkNode]; exact hv; intro _ _ h; cases h
+      | link t => rw [walkNode]; exact hv; intro _ _ h; cases h
+      | special => rw [walkNode]; exact hv; intro _ _ h; cases h
+    · intro src dst path names st hst
+      cases names with
+      | nil => rw [walkChildren]; exact hst
+      | cons name rest =>
+        rw [walkChildren]
+        simp only
+        split
+        · exact hst
+        · rename_i child hc
+          have hn := ihN src dst (pathJoin path name) child st hst
+          split
+          · exact ihC _ _ _ _ _ hn
+          · split
+            · exact ihC _ _ _ _ _ hn
+            · exact hn
+          · exact hn
+    · exact rt_visit_names fs cwd o rules root fuel ihN
+
+/-- every entry `Pack` writes — for any options, source and result — has the shape `RtNameOK` -/
+theorem rt_pack_names (fs : FS) (cwd : Str) (o : PackOpts) (src : Str) : RtAllNames (pack fs cwd o src).1 := by
+  have h0 : RtAllNames pkEmpty := fun e he => (nomatch he)
+  rw [pk_pack_eq]
+  split
+  · exact h0
+  · split
+    · exact h0
+    · rw [pkFinish_fst]
+      exact (rt_walk_names fs cwd o _ _ packFuel).1 _ _ _ _ _ h0
+
+/-! ## rounding -/
+
+/-- `roundSec` rounds to the nearest second, halves up (`/` on `Int` rounds towards minus
+infinity for a positive divisor, so this also holds for times before 1970) -/
+theorem rt_roundSec_iff (ns s : Int) :
+    roundSec ns = s ↔ s * 1000000000 - 500000000 ≤ ns ∧ ns < s * 1000000000 + 500000000 := by
+  unfold roundSec
+  omega
+
+/-! ## Pack's output is a well-formed archive -/
+
+theorem rt_inv_init : RtInv [] { tree := [([], .dir 0o755 nowT)], deferred := [] } := by
+  refine ⟨?_, ?_, ?_, rfl⟩
+  · intro r _ hr
+    show FS.get [([], Node.dir 0o755 nowT)] r = none
+    cases r with
+    | nil => exact absurd rfl hr
+    | cons a l => simp [FS.get]
+  · intro r perm mt h; cases h
+  · intro r nd h; cases h
+
+theorem rtListing_prefix {A B : List (RelPath × Node)} (h : RtListing (A ++ B)) : RtListing A := by
+  refine ⟨fun x hx => h.names x (List.mem_append_left _ hx), ?_, ?_⟩
+  · have := h.nodup
+    rw [List.map_append, List.nodup_append] at this
+    exact this.1
+  · intro A1 x A2 e q hq
+    exact h.order A1 x (A2 ++ B) (by rw [e]; simp) q hq
+
+theorem rt_isSymlink_rtEntry (r : RelPath) (nd : Node) (h : (rtEntry r nd).isSymlink = true) :
+    ∃ t, nd = .link t := by
+  cases nd with
+  | link t => exact ⟨t, rfl⟩
+  | dir perm mt => exact (nomatch h)
+  | file perm mt c => exact (nomatch h)
+  | special => exact (nomatch h)
+
+theorem rt_splitOn_rtEntry (r : RelPath) (nd : Node) (hne : r ≠ []) (hr : ∀ c ∈ r, NameNS c) :
+    ∀ c ∈ splitOn '/' (rtEntry r nd).name, c ∈ r ∨ c = [] := by
+  have hs : splitOn '/' (joinWith '/' r) = r := splitOn_joinWith '/' r hne (fun x hx => (hr x hx).2)
+  intro c hc
+  cases nd with
+  | dir perm mt =>
+    have : splitOn '/' (joinWith '/' r ++ ['/']) = r ++ [[]] := by
+      rw [splitOn_append, hs]; rfl
+    change c ∈ splitOn '/' (joinWith '/' r ++ ['/']) at hc
+    rw [this] at hc
+    rcases List.mem_append.mp hc with h | h
+    · exact Or.inl h
+    · simp at h; exact Or.inr h
+  | file perm mt c' => change c ∈ splitOn '/' (joinWith '/' r) at hc; rw [hs] at hc; exact Or.inl hc
+  | link t => change c ∈ splitOn '/' (joinWith '/' r) at hc; rw [hs] at hc; exact Or.inl hc
+  | special => change c ∈ splitOn '/' (joinWith '/' r) at hc; rw [hs] at hc; exact Or.inl hc
+
+/-- the entries of a listing whose links are non-empty, relative, tidy and climb less than their
+own depth form a well-formed archive in the sense of Spec/Untar -/
+theorem rt_listing_wellFormed (M : List (RelPath × Node)) (hM : RtListing M)
+    (hlinks : ∀ r t, (r, Node.link t) ∈ M → t ≠ [] ∧ isAbs t = false ∧
+      ∃ ups names, pathSegs t = List.replicate ups dotdot ++ names ∧ (∀ s ∈ names, s ≠ dotdot) ∧ ups < r.length) :
+    WellFormedArchive (M.map rtEntryP) := by
+  refine ⟨?_, ?_, ?_⟩
+  · intro e he _ hdd
+    obtain ⟨x, hx, rfl⟩ := List.mem_map.mp he
+    obtain ⟨h1, h2, _⟩ := hM.names x hx
+    rcases rt_splitOn_rtEntry x.1 x.2 h1 h2 dotdot hdd with h | h
+    · exact (h2 _ h).1.2.2 rfl
+    · exact absurd h (by decide)
+  · intro pre e post st hes hpre _ _
+    obtain ⟨A, R, hMe, hA, hR⟩ := List.map_eq_append_iff.mp hes
+    obtain ⟨x, B, hRe, hx, _⟩ := List.map_eq_cons_iff.mp hR
+    subst hRe
+    have hxm : x ∈ M := by rw [hMe]; simp
+    have hk : entryRel e.name = x.1 := by
+      rw [← hx]; exact rt_entryRel_rtEntry x.1 x.2 (hM.names x hxm).2.1
+    have hMA : RtListing A := rtListing_prefix (by rw [← hMe]; exact hM)
+    obtain ⟨st', hf, hinv⟩ := rt_untar_fold A hMA A [] _ rfl rt_inv_init
+    rw [hA, hpre] at hf
+    cases hf
+    rw [hk]
+    constructor
+    · intro q hq n hn
+      obtain ⟨pm, t, hd⟩ := hM.order A x B hMe q hq
+      obtain ⟨pm', t', hg⟩ := hinv.dirs q pm t hd
+      rw [hg] at hn; cases hn
+      exact ⟨pm', t', rfl⟩
+    · have hfresh : x.1 ∉ A.map (·.1) := by
+        have := hM.nodup
+        rw [hMe, List.map_append, List.map_cons, List.nodup_append] at this
+        intro hmem
+        exact this.2.2 _ hmem _ (by simp) rfl
+      rw [hinv.fresh x.1 hfresh (hM.names x hxm).1]
+      trivial
+  · intro e he hs _
+    obtain ⟨x, hx, rfl⟩ := List.mem_map.mp he
+    obtain ⟨r, nd⟩ := x
+    obtain ⟨t, rfl⟩ := rt_isSymlink_rtEntry r nd hs
+    have hk : entryRel (rtEntryP (r, Node.link t)).name = r := rt_entryRel_rtEntry r _ (hM.names _ hx).2.1
+    rw [hk]
+    exact hlinks r t hx
+
+/-- `Pack`'s output is a well-formed archive when the links of the source tree are non-empty,
+relative, tidy (all `..` first) and climb less than their own depth -/
+theorem rt_pack_wellFormed {fs : FS} {cwd : Str} {o : PackOpts} {src : Str} (ctx : RtCtx fs cwd o src)
+    (hign : o.applyIgnore = false) (hfuel : (pack fs cwd o src).2 ≠ .diverged)
+    (hlinks : ∀ r t, rtRaw fs (pathSegs src) r = some (.link t) → t ≠ [] ∧ isAbs t = false ∧
+      ∃ ups names, pathSegs t = List.replicate ups dotdot ++ names ∧ (∀ s ∈ names, s ≠ dotdot) ∧ ups < r.length) :
+    WellFormedArchive (pack fs cwd o src).1.entries ∧
+    (∀ e ∈ (pack fs cwd o src).1.entries, e.isTypeX = false) := by
+  obtain ⟨_, M, hent, hsub⟩ := rt_pack_listing ctx hign hfuel
+  rw [hent]
+  refine ⟨rt_listing_wellFormed M (rtSub_listing ctx.names hsub)
+    (fun r t hm => hlinks r t (hsub.sound _ hm).2.1), ?_⟩
+  intro e he
+  obtain ⟨x, hx, rfl⟩ := List.mem_map.mp he
+  obtain ⟨r, nd⟩ := x
+  have := (hsub.sound _ hx).2.2
+  cases nd with
+  | special => exact absurd rfl this
+  | dir perm mt => rfl
+  | file perm mt c => rfl
+  | link t => rfl
+
+/-! ## decidable forms of the hypotheses (for closed examples) -/
+
+/-- `RtPhys` as a finite check -/
+def rtPhysCheck (fs : FS) (P : PPath) : Bool :=
+  (List.range (P.length + 1)).all fun i => i = 0 || rtIsDir (fs.get (P.take i))
+
+theorem rt_phys_of_check {fs : FS} {P : PPath} (h : rtPhysCheck fs P = true) : RtPhys fs P := by
+  intro q hq hpre
+  unfold rtPhysCheck at h
+  rw [List.all_eq_true] at h
+  have := h q.length (List.mem_range.mpr (by have := hpre.length_le; omega))
+  have hq0 : q.length ≠ 0 := by
+    cases q with
+    | nil => exact absurd rfl hq
+    | cons a l => simp
+  simp only [hq0, decide_false, Bool.false_or] at this
+  rw [← List.prefix_iff_eq_take.mp hpre] at this
+  exact (rt_isDir_iff _).mp this
+
+/-- "every link bound below `P` is accepted" as a finite check -/
+def rtLinksCheck (fs : FS) (cwd : Str) (o : PackOpts) (src : Str) : Bool :=
+  fs.all fun e =>
+    match e.2 with
+    | .link t => !(pathSegs src).isPrefixOf e.1 || validSymlink cwd o.allow src (ofSegs e.1) t
+    | _ => true
+
+theorem rt_links_of_check {fs : FS} {cwd : Str} {o : PackOpts} {src : Str}
+    (h : rtLinksCheck fs cwd o src = true) :
+    ∀ r t, rtRaw fs (pathSegs src) r = some (.link t) →
+      validSymlink cwd o.allow src (ofSegs (pathSegs src ++ r)) t = true := by
+  intro r t hr
+  have hm := rt_get_mem (rt_raw_some.mp hr).2.2
+  unfold rtLinksCheck at h
+  rw [List.all_eq_true] at h
+  have := h _ hm
+  simp only [Bool.or_eq_true, Bool.not_eq_true'] at this
+  rcases this with h' | h'
+  · have : (pathSegs src).isPrefixOf (pathSegs src ++ r) = true :=
+      List.isPrefixOf_iff_prefix.mpr (List.prefix_append _ _)
+    rw [this] at h'; cases h'
+  · exact h'
+
+theorem rt_takeWhile_split (l : List Seg) :
+    l = List.replicate (l.takeWhile (· = dotdot)).length dotdot ++ l.drop (l.takeWhile (· = dotdot)).length := by
+  induction l with
+  | nil => rfl
+  | cons x xs ih =>
+    by_cases hx : x = dotdot
+    · subst hx
+      simp only [List.takeWhile_cons, decide_true, if_true, List.length_cons, List.replicate_succ,
+        List.drop_succ_cons, List.cons_append]
+      rw [← ih]
+    · simp [hx]
+
+/-- the shape of links `WellFormedArchive` asks for, as a finite check on the bindings below `P` -/
+def rtTidyCheck (fs : FS) (P : PPath) : Bool :=
+  fs.all fun e =>
+    match e.2 with
+    | .link t =>
+      !P.isPrefixOf e.1 ||
+        (t ≠ [] && !isAbs t &&
+          (let segs := pathSegs t
+           let ups := (segs.takeWhile (· = dotdot)).length
+           (segs.drop ups).all (· ≠ dotdot) && ups < e.1.length - P.length))
+    | _ => true
+
+theorem rt_tidy_of_check {fs : FS} {P : PPath} (h : rtTidyCheck fs P = true) :
+    ∀ r t, rtRaw fs P r = some (.link t) → t ≠ [] ∧ isAbs t = false ∧
+      ∃ ups names, pathSegs t = List.replicate ups dotdot ++ names ∧ (∀ s ∈ names, s ≠ dotdot) ∧ ups < r.length := by
+  intro r t hr
+  have hm := rt_get_mem (rt_raw_some.mp hr).2.2
+  unfold rtTidyCheck at h
+  rw [List.all_eq_true] at h
+  have := h _ hm
+  simp only [Bool.or_eq_true, Bool.not_eq_true', Bool.and_eq_true, decide_eq_true_eq, List.all_eq_true] at this
+  rcases this with h' | ⟨⟨h1, h2⟩, h3, h4⟩
+  · have : P.isPrefixOf (P ++ r) = true := List.isPrefixOf_iff_prefix.mpr (List.prefix_append _ _)
+    rw [this] at h'; cases h'
+  · refine ⟨h1, h2, ((pathSegs t).takeWhile (· = dotdot)).length, (pathSegs t).drop ((pathSegs t).takeWhile (· = dotdot)).length, ?_, ?_, ?_⟩
+    · exact rt_takeWhile_split (pathSegs t)
+    · intro s hs
+      have := h3 s hs
+      simpa using this
+    · simpa using h4
+
 end Slug
